@@ -1,7 +1,7 @@
 (* Properties/C02.v -- Encoder output is a conformant ISO/IEC 16022 data codeword stream (the parts that are theorems). *)
 From Coq Require Import Arith NArith List Bool.
 From DM Require Import Generated.Symbols Generated.ModeTables Spec.GF256 Spec.RSCode Model.Outcome Model.SymbolList Model.Planner Model.Enc
-  Model.RSEnc Model.GF Model.PlannerRun Model.Api Proofs.SymbolListProofs Proofs.RSEncProofs Proofs.RSEncLen Proofs.EncLocal Proofs.EncTop Spec.Stream16022 Proofs.EncAscii Proofs.PlanAscii Proofs.EncB256.
+  Model.RSEnc Model.GF Model.PlannerRun Model.Api Proofs.SymbolListProofs Proofs.RSEncProofs Proofs.RSEncLen Proofs.EncLocal Proofs.EncTop Spec.Stream16022 Spec.Recognise Model.Dec Proofs.EncAscii Proofs.PlanAscii Proofs.EncB256 Proofs.DecScript Proofs.Certify.
 Import ListNotations.
 Local Open Scope N_scope.
 
@@ -105,9 +105,30 @@ Theorem C02_base256_only_conformant : forall sorter data symbols cw s,
 Proof. intros so d sy cw s HS OK H. exact (proj1 (b256_only_roundtrip so d sy cw s HS OK H)). Qed.
 Print Assumptions C02_base256_only_conformant.
 
-(* NOT a theorem here: that the part between header and padding is a legal ISO/IEC 16022 mode stream that decodes
-   to the input.  It is decided per case by the independent reference decoder (tools/props/refdec.py) run on the
-   implementation's output, which the correspondence ties to this model. *)
+(* (vi) for the other plans conformance is decided per output by a certificate whose check is proved sound here: the
+   check run (extracted) on every stream the implementation produces accepts only if the stream is the rendering of a
+   legal script of Spec/Stream16022.v spelling exactly the input bytes -- and then the model of the decoder returns
+   them (C04).  Nothing about the recogniser that guesses the script is assumed. *)
+Theorem C02_certificate_sound : forall cw data, certify None cw data = true ->
+  exists segs npad, script_ok segs npad = true /\ cw = stream segs npad /\ meaning segs = data /\ decode_data cw = Ok data.
+Proof. exact certify_sound. Qed.
+Print Assumptions C02_certificate_sound.
+
+Theorem C02_certificate_sound_prefixed : forall m cw data, certify (Some m) cw data = true ->
+  exists segs npad, script_ok segs npad = true /\ cw = stream_with m segs npad /\ meaning segs = data.
+Proof. exact certify_sound_prefix. Qed.
+Print Assumptions C02_certificate_sound_prefixed.
+
+Theorem C02_certificate_decodes : forall cw data,
+  (certify (Some 236) cw data = true -> decode_data cw = Ok (MACRO05_HEAD ++ data ++ MACRO_TRAIL)) /\
+  (certify (Some 237) cw data = true -> decode_data cw = Ok (MACRO06_HEAD ++ data ++ MACRO_TRAIL)) /\
+  (certify (Some 232) cw data = true -> decode_data cw = Ok data).
+Proof. intros cw data. split; [apply certify_macro05|split; [apply certify_macro06|apply certify_fnc1]]. Qed.
+Print Assumptions C02_certificate_decodes.
+
+(* NOT a theorem here: that for EVERY input the part between header and padding is a legal ISO/IEC 16022 mode stream
+   (the encoder theorem exists for two configurations only).  It is decided per output by the certificate above; streams
+   with an ECI designator (outside the script language) by the independent reference decoder tools/props/refdec.py. *)
 (* 3 codewords written, capacity 8: 129 at position 4, then randomised pads at positions 5..8 *)
 Example C02_example : padding true 3 5 = [129; 115; 11; 161; 56].
 Proof. vm_compute. reflexivity. Qed.
